@@ -39,6 +39,9 @@ func handleMore(toks []string) (string, bool) {
 	if r, ok := handleFaults(toks); ok {
 		return r, true
 	}
+	if r, ok := handleStages(toks); ok {
+		return r, true
+	}
 	switch toks[0] {
 	case "mscn":
 		return runMscn(toks[1:]), true
